@@ -27,9 +27,11 @@ def job(j):
         c = {"kind": kind, "n": n, "form": it["form"], "key": f"{kind}/{it['form']}/n={n}:" + src, "status": "ok", "exc": "",
              "nmatch": it.get("nmatch", 0), "fns": NONE}
         signal.alarm(120)
+        accepted = False
         try:
             d = pyast.program(src)
             qf = qlassf(src) if not (kind == "bv" and it["form"] == "secret_oracle") else secret_oracle(n, it["secret"])
+            accepted = True  # from here on an exception is not a rejection of the program
             c["def"] = d
             if kind == "grover":
                 if it["form"] == "element":
@@ -64,7 +66,7 @@ def job(j):
         except _TO:
             c["status"] = "timeout"
         except Exception as e:
-            c["status"] = "rejected"
+            c["status"] = "wrapper-raised" if accepted and type(e).__name__ != "ConstantOracleException" else "rejected"
             c["exc"] = f"{type(e).__name__}: {str(e)[:150]}"
         finally:
             signal.alarm(0)
@@ -122,6 +124,9 @@ def run(pid):
             if c["status"] == "ok":
                 c["id"] = len(cases)
                 cases.append(c)
+            elif c["status"] == "wrapper-raised":
+                rep.fail({"key": c["key"], "exc": c["exc"]}, "building-the-algorithm-from-an-accepted-function-raised",
+                         f"{c['exc']} {c['key']!r}", key=c["key"], triggers=(f"{c['kind']}:wrapper-raised",))
         vlog("built", st)
         verdicts, stats = tlc.run_cases("Trace_Algo", cases, sc, timeout=3000, heap="4g")
     vst, kinds, skips = {}, {}, {}
